@@ -4,14 +4,14 @@ import json, os
 import lib, etf_common as E
 
 PID = "C10"
-SCRIPTS_QUICK = ["", "c", "b", "m", "cb", "bc", "bmb", "cBm"]
+SCRIPTS_QUICK = ["", "c", "b", "m", "cb", "bc", "bmb", "cBm", "f", "F", "v", "fc", "bF", "Fv"]
 
 
 def scripts_upto(n):
     out = [""]
     frontier = [""]
     for _ in range(n):
-        frontier = [s + ch for s in frontier for ch in "cbBm"]
+        frontier = [s + ch for s in frontier for ch in ("cbBmfFv" if n >= 3 else "cbBm")]
         out += frontier
     return out
 
